@@ -59,6 +59,7 @@ __all__ = [
     "write_commit_graph",
 ]
 
+import hashlib
 import os
 import struct
 from collections.abc import Iterator, Sequence
@@ -460,26 +461,40 @@ class CommitGraph:
         chunk4_offset = chunk3_offset + len(commit_data)  # Extra Edge List
         terminator_offset = chunk4_offset + len(edge_data)
 
+        # The file ends with a checksum of everything before it; git refuses
+        # a commit graph without one ("improper chunk offset(s)").
+        if self.hash_version == HASH_VERSION_SHA256:
+            checksum = hashlib.sha256()
+        else:
+            checksum = hashlib.sha1()
+
+        def write(data: bytes) -> None:
+            checksum.update(data)
+            f.write(data)
+
         # Write header
-        f.write(COMMIT_GRAPH_SIGNATURE)
-        f.write(struct.pack(">B", COMMIT_GRAPH_VERSION))
-        f.write(struct.pack(">B", self.hash_version))
-        f.write(struct.pack(">B", num_chunks))
-        f.write(struct.pack(">B", 0))  # 0 base graphs
+        write(COMMIT_GRAPH_SIGNATURE)
+        write(struct.pack(">B", COMMIT_GRAPH_VERSION))
+        write(struct.pack(">B", self.hash_version))
+        write(struct.pack(">B", num_chunks))
+        write(struct.pack(">B", 0))  # 0 base graphs
 
         # Write table of contents
-        f.write(CHUNK_OID_FANOUT + struct.pack(">Q", chunk1_offset))
-        f.write(CHUNK_OID_LOOKUP + struct.pack(">Q", chunk2_offset))
-        f.write(CHUNK_COMMIT_DATA + struct.pack(">Q", chunk3_offset))
+        write(CHUNK_OID_FANOUT + struct.pack(">Q", chunk1_offset))
+        write(CHUNK_OID_LOOKUP + struct.pack(">Q", chunk2_offset))
+        write(CHUNK_COMMIT_DATA + struct.pack(">Q", chunk3_offset))
         if edge_data:
-            f.write(CHUNK_EXTRA_EDGE_LIST + struct.pack(">Q", chunk4_offset))
-        f.write(b"\x00\x00\x00\x00" + struct.pack(">Q", terminator_offset))
+            write(CHUNK_EXTRA_EDGE_LIST + struct.pack(">Q", chunk4_offset))
+        write(b"\x00\x00\x00\x00" + struct.pack(">Q", terminator_offset))
 
         # Write chunks
-        f.write(fanout_data)
-        f.write(oid_lookup_data)
-        f.write(commit_data)
-        f.write(edge_data)
+        write(fanout_data)
+        write(oid_lookup_data)
+        write(commit_data)
+        write(edge_data)
+
+        # Write trailer
+        f.write(checksum.digest())
 
     def __len__(self) -> int:
         """Return number of commits in the graph."""
